@@ -61,6 +61,43 @@ class PySet(Ext):
     def py_isinstance(self, I, cls):
         return isinstance(cls, BuiltinType) and cls.name == "set"
 
+    def _subset(self, other):
+        return all(any(_concrete_eq(x, y) for y in other.items) for x in self.items)
+
+    def py_compare(self, I, op, other, reflected):
+        if not isinstance(other, PySet):
+            if op in ("Eq", "NotEq"):
+                return op == "NotEq"
+            return NotImplemented
+        a, b = (other, self) if reflected else (self, other)
+        if op == "Eq":
+            return len(a.items) == len(b.items) and a._subset(b)
+        if op == "NotEq":
+            return not (len(a.items) == len(b.items) and a._subset(b))
+        if op == "LtE":
+            return a._subset(b)
+        if op == "GtE":
+            return b._subset(a)
+        if op == "Lt":
+            return a._subset(b) and len(a.items) < len(b.items)
+        if op == "Gt":
+            return b._subset(a) and len(b.items) < len(a.items)
+        return NotImplemented
+
+    def py_binop(self, I, op, other, reflected):
+        if not isinstance(other, PySet):
+            return NotImplemented
+        a, b = (other, self) if reflected else (self, other)
+        if op == "|":
+            return PySet(list(a.items) + list(b.items))
+        if op == "&":
+            return PySet([x for x in a.items if any(_concrete_eq(x, y) for y in b.items)])
+        if op == "-":
+            return PySet([x for x in a.items if not any(_concrete_eq(x, y) for y in b.items)])
+        if op == "^":
+            return PySet([x for x in a.items if not any(_concrete_eq(x, y) for y in b.items)] + [y for y in b.items if not any(_concrete_eq(x, y) for x in a.items)])
+        return NotImplemented
+
 
 def _concrete_eq(a, b):
     if isinstance(a, Sym) or isinstance(b, Sym):
@@ -686,6 +723,22 @@ def tensor_index(I, t: Tensor, key):
         if len({len(l) for l in lists}) != 1:
             raise PyExc("IndexError", ("shape mismatch: indexing arrays could not be broadcast together",))
         return Tensor((len(lists[0]),), [t.get([_norm_index(lists[ax][j], t.shape[ax]) for ax in range(t.ndim)]) for j in range(len(lists[0]))], t.dtype)
+    if len(key) == 1 and isinstance(key[0], Tensor) and key[0].ndim >= 2 and key[0].dtype == "bool":
+        # a[mask] with a multi-dimensional boolean mask: the selected entries, flattened, in row-major order
+        k = key[0]
+        if any(isinstance(b_, Sym) for b_ in k.data):
+            raise Unsupported("symbolic multi-dimensional boolean mask on a fixed tensor")
+        if k.shape != t.shape[:k.ndim]:
+            raise PyExc("IndexError", ("boolean index did not match indexed array",))
+        rest = t.shape[k.ndim:]
+        hits = [idx for idx in iter_idx(k.shape) if k.get(idx)]
+        data = []
+        for h in hits:
+            if rest:
+                data.extend(t.get(tuple(h) + tail) for tail in iter_idx(rest))
+            else:
+                data.append(t.get(tuple(h)))
+        return Tensor((len(hits),) + tuple(rest), data, t.dtype)
     if len(key) == 1 and isinstance(key[0], Tensor) and key[0].ndim >= 2 and key[0].dtype != "bool":
         # a[idx] with an integer index array of any shape: result shape = idx.shape + a.shape[1:]
         k = key[0]
